@@ -6,16 +6,18 @@ the formulas — webmerc IS the spherical Mercator of radius a; merc's easting i
 longitude difference (scale k_0 along the equator), the k_0 installed by lat_ts makes the scale
 on that parallel exactly one, and the projection centre maps to the false origin; lcc's
 projection centre maps to the false origin and its central meridian to the line x = x_0.
-Conformality, equivalence and the scale on
-the other defining lines involve derivatives of the series and are decided by the tie to
+**merc is conformal at every point, for every ellipsoid and parameter set** (`merc_conformal`,
+through the derivative of the isometric latitude).  Conformality of the series-based
+projections, equivalence and the scale on the other defining lines involve derivatives of the series and are decided by the tie to
 /repo: finite differences on the implementation, with the model bit-identical on the same
 points.
 -/
 import Geodesy.Props.C13
+import Geodesy.Lemmas.Mercator
 
 namespace Geodesy
 namespace C05
-open Text Ops C13
+open Text Ops C13 Mercator
 
 /-! ### webmerc -/
 
@@ -51,6 +53,59 @@ theorem merc_unit_scale_at_lat_ts (es ts : ℝ) (hc : Real.cos ts ≠ 0) (hw : 0
 theorem merc_centre_to_false_origin (p : Parsed ℝ) :
     Merc.fwd p (Scalar.toRadians (Parsed.lon p 0)) (Scalar.toRadians (Parsed.lat p 0)) = (Parsed.x p 0, Parsed.y p 0) := by
   simp [Merc.fwd]
+
+/-- **merc is conformal**, for every ellipsoid with `0 ≤ f < 1`, every parameter set and every point
+strictly between the poles: the northing has derivative `a k_0 (1 − e²) / ((1 − e² sin²φ) cos φ)`
+with respect to the latitude, the easting `k_0 a` with respect to the longitude; the northing
+does not depend on the longitude nor the easting on the latitude (meridians and parallels stay
+orthogonal, orientation is kept); and the scale along the meridian, `∂N/∂φ` over the meridian
+radius `M = a (1 − e²) / W³`, equals the scale along the parallel, `∂E/∂λ` over the radius of the
+parallel `(a / W) cos φ`, where `W = sqrt(1 − e² sin²φ)` -/
+theorem merc_conformal (p : Parsed ℝ) (lon phi : ℝ) (hf0 : 0 ≤ (p.ellps 0).f) (hf1 : (p.ellps 0).f < 1)
+    (ha : (p.ellps 0).a ≠ 0) (h1 : -(Real.pi / 2) < phi) (h2 : phi < Real.pi / 2) :
+    let el := p.ellps 0
+    let es := el.eccentricitySquared
+    let W := Real.sqrt (1 - es * Real.sin phi ^ 2)
+    let dy := el.a * Parsed.k p 0 * ((1 - es) / ((1 - es * Real.sin phi ^ 2) * Real.cos phi))
+    HasDerivAt (fun x => (Merc.fwd p lon x).2) dy phi ∧
+    HasDerivAt (fun l => (Merc.fwd p l phi).1) (Parsed.k p 0 * el.a) lon ∧
+    (∀ l, (Merc.fwd p l phi).2 = (Merc.fwd p lon phi).2) ∧
+    (∀ x, (Merc.fwd p lon x).1 = (Merc.fwd p lon phi).1) ∧
+    dy / (el.a * (1 - es) / W ^ 3) = (Parsed.k p 0 * el.a) / (el.a / W * Real.cos phi) := by
+  intro el es W dy
+  have two : (@OfScientific.ofScientific ℝ Scalar.instOfScientific 20 true 1) = 2 := by
+    simp [OfScientific.ofScientific, Scalar.ofSci, Lit.toReal]; norm_num
+  have hes : es = el.f * (2 - el.f) := by simp [es, Ellipsoid.eccentricitySquared, two]
+  have hes0 : 0 ≤ es := by rw [hes]; nlinarith
+  have hes1 : es < 1 := by rw [hes]; nlinarith
+  have he : el.eccentricity ^ 2 = es := by
+    simp only [Ellipsoid.eccentricity, scalar_sqrt]; exact Real.sq_sqrt hes0
+  have he0 : 0 ≤ el.eccentricity := by simp only [Ellipsoid.eccentricity, scalar_sqrt]; exact Real.sqrt_nonneg _
+  have he1 : el.eccentricity < 1 := by
+    have : el.eccentricity ^ 2 < 1 := by rw [he]; exact hes1
+    nlinarith [sq_nonneg (el.eccentricity - 1)]
+  have hc : 0 < Real.cos phi := Real.cos_pos_of_mem_Ioo ⟨h1, h2⟩
+  have hw : 0 < 1 - es * Real.sin phi ^ 2 := by nlinarith [Real.sin_sq_le_one phi, sq_nonneg (Real.sin phi)]
+  have hW : 0 < W := Real.sqrt_pos.mpr hw
+  have hW2 : W ^ 2 = 1 - es * Real.sin phi ^ 2 := Real.sq_sqrt hw.le
+  refine ⟨?_, ?_, fun l => by simp [Merc.fwd], fun x => by simp [Merc.fwd], ?_⟩
+  · -- the northing: a k_0 (ψ(x) − ψ_0) + y_0
+    have dpsi := isometric_hasDerivAt el.eccentricity phi he0 he1 h1 h2
+    rw [he] at dpsi
+    have := ((dpsi.sub_const (el.latitudeGeographicToIsometric (Scalar.toRadians (Parsed.lat p 0)))).const_mul
+      (el.a * Parsed.k p 0)).add_const (Parsed.y p 0)
+    refine this.congr_of_eventuallyEq ?_ |>.congr_deriv ?_
+    · exact Filter.Eventually.of_forall fun x => by simp only [Merc.fwd, isometric_eq]; rfl
+    · simp only [dy]
+  · have : HasDerivAt (fun l : ℝ => (l - Scalar.toRadians (Parsed.lon p 0)) * Parsed.k p 0 * el.a + Parsed.x p 0)
+        (1 * Parsed.k p 0 * el.a) lon :=
+      ((((hasDerivAt_id lon).sub_const _).mul_const _).mul_const _).add_const _
+    simpa [Merc.fwd] using this
+  · have hW3 : W ^ 3 = W * (1 - es * Real.sin phi ^ 2) := by rw [← hW2]; ring
+    have h1e : (1 - es) ≠ 0 := by linarith
+    simp only [dy]
+    rw [hW3]
+    field_simp
 
 /-! ### lcc -/
 
